@@ -241,22 +241,27 @@ def next32of64 (p : XoParams) (s : S4 64) : BitVec 32 × S4 64 :=
   let r := next p s
   (r.1.truncate 32, r.2)
 
-/-- Order in which a compiler evaluates the two arguments of `widen(uint32(), uint32())`.
-C++ (all versions up to C++23) leaves it unspecified; g++ 12 on x86-64 evaluates the **second**
-argument first (`rightFirst`), clang the first (`leftFirst`).  The harness measures which one the
-build under test uses and the driver feeds it here. -/
-inductive ArgOrder where
-  | leftFirst
-  | rightFirst
-deriving DecidableEq, Repr
+/-- `FloatRandomT<4>::uint64()` / `IntRandomT<4>::uint64()` — random.hpp (after the repair
+"draw the two halves of the 32-bit generators' uint64() in a defined order"):
+`{ const uint32_t x = uint32(); const uint32_t y = uint32(); return widen(x, y); }`.
+The two draws are sequenced declarations, so their order is defined by the language;
+`firstDrawArg` is the source fact saying which argument of `widen` the FIRST draw is passed to
+(`0` = first argument = high half, anything else = second argument = low half; the extractor only
+emits 0 or 1 and rejects every shape whose evaluation order is not defined).
 
-/-- `FloatRandomT<4>::uint64()` / `IntRandomT<4>::uint64()`: `widen(uint32(), uint32())`. -/
-def next64of32 (o : ArgOrder) (p : XoParams) (s : S4 32) : BitVec 64 × S4 32 :=
+Historical remark: before the repair the body was `return widen(uint32(), uint32());`, whose two calls
+are indeterminately sequenced — g++ 12 drew the right argument first, clang 14 the left one (measured,
+-O0…-O3), so the result was compiler-dependent and the order had to be a measured parameter. -/
+def next64of32 (firstDrawArg : Nat) (p : XoParams) (s : S4 32) : BitVec 64 × S4 32 :=
   let a := next p s
   let b := next p a.2
-  match o with
-  | .leftFirst  => (widen a.1 b.1, b.2)
-  | .rightFirst => (widen b.1 a.1, b.2)
+  if firstDrawArg = 0 then (widen a.1 b.1, b.2) else (widen b.1 a.1, b.2)
+
+/-- `FloatRandomT<4>::uint64()` with the order of the current source. -/
+def f4next64 (s : S4 32) : BitVec 64 × S4 32 := next64of32 Rng.f4WidenFirstDrawArg f4 s
+
+/-- `IntRandomT<4>::uint64()` with the order of the current source. -/
+def i4next64 (s : S4 32) : BitVec 64 × S4 32 := next64of32 Rng.i4WidenFirstDrawArg i4 s
 
 /-! ## uniform -/
 
@@ -326,10 +331,14 @@ def float32of32 (p : XoParams) (s : S4 32) : BitVec 32 × S4 32 :=
   let r := next p s
   (uniformBits32 r.1, r.2)
 
-/-- `float64()` on the 4-byte variants: `uniform(uint64())` with `uint64() = widen(uint32(), uint32())`. -/
-def float64of32 (o : ArgOrder) (p : XoParams) (s : S4 32) : BitVec 64 × S4 32 :=
-  let r := next64of32 o p s
+/-- `float64()` on the 4-byte variants: `uniform(uint64())`, `uint64()` as above. -/
+def float64of32 (firstDrawArg : Nat) (p : XoParams) (s : S4 32) : BitVec 64 × S4 32 :=
+  let r := next64of32 firstDrawArg p s
   (uniformBits64 r.1, r.2)
+
+/-- `FloatRandomT<4>::float64()` / `IntRandomT<4>::float64()` with the order of the current source. -/
+def f4float64 (s : S4 32) : BitVec 64 × S4 32 := float64of32 Rng.f4WidenFirstDrawArg f4 s
+def i4float64 (s : S4 32) : BitVec 64 × S4 32 := float64of32 Rng.i4WidenFirstDrawArg i4 s
 
 /-- First `n` results of iterating a draw function (`n` calls in a row on one object). -/
 def stream {σ α : Type} (f : σ → α × σ) : Nat → σ → List α
